@@ -197,3 +197,38 @@ func Count(calls []Call, name, sub string) int {
 	}
 	return n
 }
+
+// RunPlain runs a child without strace (same Result conventions as Run).
+func RunPlain(argv []string, timeout time.Duration) (*Result, error) {
+	return RunPlainEnv(argv, nil, timeout)
+}
+
+// RunPlainEnv is RunPlain with extra environment variables.
+func RunPlainEnv(argv, env []string, timeout time.Duration) (*Result, error) {
+	if timeout == 0 {
+		timeout = 30 * time.Second
+	}
+	ctx, cancel := context.WithTimeout(context.Background(), timeout)
+	defer cancel()
+	cmd := exec.CommandContext(ctx, argv[0], argv[1:]...)
+	cmd.Env = append(os.Environ(), env...)
+	var so, se bytes.Buffer
+	cmd.Stdout = &so
+	cmd.Stderr = &se
+	err := cmd.Run()
+	r := &Result{Stdout: so.String(), Stderr: se.String()}
+	if ctx.Err() != nil {
+		r.TimedOut = true
+	}
+	if err != nil {
+		ee, ok := err.(*exec.ExitError)
+		if !ok {
+			return nil, err
+		}
+		r.Exit = ee.ExitCode()
+		if r.Exit == -1 || r.Exit == 137 {
+			r.Killed = true
+		}
+	}
+	return r, nil
+}
